@@ -235,5 +235,7 @@ def run(ctx):
     ias15.rule_predictor(ctx, 'R01.5')
     from . import sei
     sei.rule_exact(ctx, 'R01.8')          # SEI: the unperturbed operator is the exact flow of Hill's equations
+    from . import c09
+    c09.rule_exact_finish(ctx)            # R09.11: a shortened last step starts from a synchronised state (else the error stops shrinking with dt)
     ctx.not_decided.append('the order of accuracy beyond first-order consistency and symmetry; adaptive step control (IAS15, BS, TRACE accept/reject); '
                            'user ODE coupling; error constants')
